@@ -113,6 +113,64 @@ func vMinusS(a, b []string) []string {
 	return out
 }
 
+func vHasN(a []int64, x int64) bool {
+	for _, y := range a {
+		if x == y {
+			return true
+		}
+	}
+	return false
+}
+
+func vUnionN(a, b []int64) []int64 {
+	out := append([]int64{}, a...)
+	for _, x := range b {
+		if !vHasN(out, x) {
+			out = append(out, x)
+		}
+	}
+	return out
+}
+
+func vMinusN(a, b []int64) []int64 {
+	out := []int64{}
+	for _, x := range a {
+		if !vHasN(b, x) {
+			out = append(out, x)
+		}
+	}
+	return out
+}
+
+func vHasB(a [][]byte, x []byte) bool {
+	for _, y := range a {
+		if string(x) == string(y) {
+			return true
+		}
+	}
+	return false
+}
+
+func vUnionB(a, b [][]byte) [][]byte {
+	out := append([][]byte{}, a...)
+	for _, x := range b {
+		if !vHasB(out, x) {
+			out = append(out, x)
+		}
+	}
+	return out
+}
+
+func vMinusB(a, b [][]byte) [][]byte {
+	out := [][]byte{}
+	for _, x := range a {
+		if !vHasB(b, x) {
+			out = append(out, x)
+		}
+	}
+	return out
+}
+
 func vTemplates() []vUpdTemplate {
 	has := func(pre vVals, n string) bool { _, ok := pre[n]; return ok }
 	return []vUpdTemplate{
@@ -204,6 +262,36 @@ func vTemplates() []vUpdTemplate {
 		{"SET c = l, l[0] = :v", []string{":v"}, func(p, b vVals) vVals { return vWith(vWith(p, "c", p["l"]), "l", vListSet(p["l"], 0, b[":v"])) }},
 		{"SET c = m, m.k = :v", []string{":v"}, func(p, b vVals) vVals { return vWith(vWith(p, "c", p["m"]), "m", vSetMember(p["m"], "k", b[":v"])) }},
 		{"SET c = l REMOVE l[0]", nil, func(p, b vVals) vVals { return vWith(vWith(p, "c", p["l"]), "l", vListDel(p["l"], 0)) }},
+		// number sets and binary sets: union and difference by value
+		{"ADD ns :ns", []string{":ns"}, func(p, b vVals) vVals {
+			return vWith(p, "ns", vspec.Val{Kind: "NS", NS: vUnionN(p["ns"].NS, b[":ns"].NS)})
+		}},
+		{"DELETE ns :ns", []string{":ns"}, func(p, b vVals) vVals {
+			rest := vMinusN(p["ns"].NS, b[":ns"].NS)
+			if len(rest) == 0 {
+				return nil
+			}
+			return vWith(p, "ns", vspec.Val{Kind: "NS", NS: rest})
+		}},
+		{"ADD bs :bs", []string{":bs"}, func(p, b vVals) vVals {
+			return vWith(p, "bs", vspec.Val{Kind: "BS", BS: vUnionB(p["bs"].BS, b[":bs"].BS)})
+		}},
+		{"DELETE bs :bs", []string{":bs"}, func(p, b vVals) vVals {
+			rest := vMinusB(p["bs"].BS, b[":bs"].BS)
+			if len(rest) == 0 {
+				return nil
+			}
+			return vWith(p, "bs", vspec.Val{Kind: "BS", BS: rest})
+		}},
+		{"ADD fresh :bs", []string{":bs"}, func(p, b vVals) vVals { return vWith(p, "fresh", b[":bs"]) }},
+		{"DELETE fresh :ns", []string{":ns"}, func(p, b vVals) vVals { return p }},
+		{"SET c = bs DELETE bs :bs", []string{":bs"}, func(p, b vVals) vVals {
+			rest := vMinusB(p["bs"].BS, b[":bs"].BS)
+			if len(rest) == 0 {
+				return nil
+			}
+			return vWith(vWith(p, "c", p["bs"]), "bs", vspec.Val{Kind: "BS", BS: rest})
+		}},
 	}
 }
 
@@ -224,6 +312,13 @@ func VerifC07Update() {
 		"s": {Kind: "SS", SS: []string{nd.StringN("s0", 1), nd.StringN("s1", 1)}},
 	}
 	nd.Assume(pre["s"].SS[0] != pre["s"].SS[1]) // the members of a set are distinct
+	if len(t.vals) > 0 && (t.vals[0] == ":ns" || t.vals[0] == ":bs") {
+		// the number set and the binary set exist only for the templates that name them
+		pre["ns"] = vspec.Val{Kind: "NS", NS: []int64{3, int64(nd.Int16("ns1"))}}
+		nd.Assume(pre["ns"].NS[1] != 3)
+		pre["bs"] = vspec.Val{Kind: "BS", BS: [][]byte{nd.Bytes("bs0", 1), nd.Bytes("bs1", 1)}}
+		nd.Assume(pre["bs"].BS[0][0] != pre["bs"].BS[1][0])
+	}
 	if nd.Choice("has-a", 2) == 1 {
 		pre["a"] = vS1("a")
 	}
@@ -252,9 +347,19 @@ func VerifC07Update() {
 			b[name] = vspec.Val{Kind: "L", L: []vspec.Val{vS1("bl0")}}
 		case ":s":
 			b[name] = vspec.Val{Kind: "SS", SS: []string{nd.StringN("bs0", 1)}}
+		case ":ns":
+			b[name] = vspec.Val{Kind: "NS", NS: []int64{int64(nd.Int16("ons0"))}}
+		case ":bs":
+			// one or two members
+			bs := [][]byte{nd.Bytes("obs0", 1)}
+			if nd.Choice("obs.len", 2) == 1 {
+				bs = append(bs, nd.Bytes("obs1", 1))
+				nd.Assume(bs[0][0] != bs[1][0])
+			}
+			b[name] = vspec.Val{Kind: "BS", BS: bs}
 		}
 	}
-	names := []string{"a", "b", "n", "m", "l", "s", "u"}
+	names := []string{"a", "b", "n", "m", "l", "s", "u", "ns", "bs"}
 	item := vspec.ToItems(pre, names)
 	li := &Language{}
 	aliases := map[string]string{}
